@@ -60,15 +60,16 @@ type vfSide struct {
 	restartedAt int // step of the last Restart (for the C04 Checking edge)
 
 	// shadow state of the monitors
-	prevSel     string
-	prevSelPrio [2]uint32
-	stateCursor int
-	lastState   ConnectionState
-	pairAddr    map[uint64]string // pair id -> "local|remote" within the generation
-	maxPairID   uint64
-	told        map[string]bool // transport addresses this side was told as remote candidates (this generation)
-	filtered    map[string]bool // addresses the remote IP filter rejects
-	closed      bool
+	prevSel       string
+	prevSelPrio   [2]uint32
+	stateCursor   int
+	lastState     ConnectionState
+	pairAddr      map[uint64]string // pair id -> "local|remote" within the generation
+	maxPairID     uint64
+	prevSnapState ConnectionState
+	told          map[string]bool // transport addresses this side was told as remote candidates (this generation)
+	filtered      map[string]bool // addresses the remote IP filter rejects
+	closed        bool
 }
 
 type vfStep struct {
@@ -80,18 +81,19 @@ type vfStep struct {
 }
 
 type vfSession struct {
-	e     *vfEnv
-	r     *vfResult
-	rng   *rand.Rand
-	sw    *vfSwitch
-	A, B  *vfSide
-	steps []vfStep
-	stepN int
-	idx   int
-	desc  map[string]any
-	start time.Time
+	e      *vfEnv
+	r      *vfResult
+	rng    *rand.Rand
+	sw     *vfSwitch
+	A, B   *vfSide
+	P      *vfPeer
+	steps  []vfStep
+	stepN  int
+	idx    int
+	desc   map[string]any
+	start  time.Time
 	broken string // set when the harness itself lost quiescence: the run becomes inconclusive
-	mon   struct{ c03, c04, c06 bool }
+	mon    struct{ c03, c04, c06 bool }
 	// expectations maintained by workloads
 	noPairPossible bool
 }
@@ -545,6 +547,7 @@ func (s *vfSession) afterStep() {
 		if s.mon.c03 {
 			s.monitorC03(x, sn)
 		}
+		x.prevSnapState = sn.State
 		if s.noPairPossible && (sn.Selected != "" || sn.State == ConnectionStateConnected) {
 			s.viol("C01", "connected-without-reachable-pair", fmt.Sprintf("%s reports state %s / selected %q although no candidate pair is reachable in both directions", x.name, sn.State, sn.Selected), nil)
 		}
@@ -605,7 +608,8 @@ func (s *vfSession) monitorC04(x *vfSide, sn *vfSnap) {
 			s.viol("C04", "connected-without-selected", fmt.Sprintf("%s: state %s with no selected pair", x.name, sn.State), nil)
 		}
 	case ConnectionStateFailed:
-		if sn.Selected != "" || len(sn.Pairs) > 0 || len(sn.Locals) > 0 || len(sn.Remotes) > 0 {
+		// judged in the step that entered Failed: later inbound checks may legitimately create new peer-reflexive state
+		if x.prevSnapState != ConnectionStateFailed && (sn.Selected != "" || len(sn.Pairs) > 0 || len(sn.Locals) > 0 || len(sn.Remotes) > 0) {
 			s.viol("C04", "failed-with-residue", fmt.Sprintf("%s: Failed but selected=%q pairs=%d locals=%d remotes=%d", x.name, sn.Selected, len(sn.Pairs), len(sn.Locals), len(sn.Remotes)), nil)
 		}
 	}
@@ -685,7 +689,7 @@ func (s *vfSession) monitorC06(x *vfSide, sn *vfSnap) { //nolint:cyclop
 	if !selListed {
 		s.viol("C06", "selected-not-listed", fmt.Sprintf("%s: selected pair %s is not one of the listed pairs", x.name, sn.Selected), nil)
 	}
-	if sn.State == ConnectionStateFailed && (len(sn.Pairs) > 0 || len(sn.Locals) > 0 || len(sn.Remotes) > 0 || sn.Selected != "" || len(sn.Pending) > 0) {
+	if sn.State == ConnectionStateFailed && x.prevSnapState != ConnectionStateFailed && (len(sn.Pairs) > 0 || len(sn.Locals) > 0 || len(sn.Remotes) > 0 || sn.Selected != "" || len(sn.Pending) > 0) {
 		s.viol("C06", "failed-residue", fmt.Sprintf("%s: Failed with pairs=%d locals=%d remotes=%d pending=%d selected=%q", x.name, len(sn.Pairs), len(sn.Locals), len(sn.Remotes), len(sn.Pending), sn.Selected), nil)
 	}
 	// public views agree with the internal ones
@@ -747,7 +751,11 @@ func (s *vfSession) monitorC03(x *vfSide, sn *vfSnap) { //nolint:cyclop
 	parts := strings.SplitN(sn.Selected, "|", 2)
 	lAP, _ := netip.ParseAddrPort(strings.SplitN(parts[0], "/", 2)[1])
 	rAP, _ := netip.ParseAddrPort(strings.SplitN(parts[1], "/", 2)[1])
-	peerAuth := func(name string) bool { return strings.HasPrefix(name, s.other(x).name+".") }
+	peerName := "P"
+	if s.P == nil {
+		peerName = s.other(x).name
+	}
+	peerAuth := func(name string) bool { return strings.HasPrefix(name, peerName+".") }
 	selfAuth := func(name string) bool { return strings.HasPrefix(name, x.name+".") }
 	// requests this agent emitted on the pair
 	reqTx := map[string]bool{}
@@ -845,7 +853,7 @@ func (s *vfSession) emittedCheck(from int) {
 		if d.Stun.UseCand && d.Stun.Role == "controlled" {
 			s.viol("C03", "controlled-sent-use-candidate", fmt.Sprintf("%s sent a Binding request carrying both ICE-CONTROLLED and USE-CANDIDATE to %s", x.name, d.Dst), nil)
 		}
-		if x.cfg.Lite && !s.other(x).cfg.Lite {
+		if x.cfg.Lite && (s.P != nil || !s.other(x).cfg.Lite) {
 			s.viol("C03", "lite-sent-request", fmt.Sprintf("%s is a lite agent but originated a Binding request to %s", x.name, d.Dst), nil)
 		}
 	}
